@@ -152,6 +152,7 @@ inductive Ev
   | open (name : List Char)
   | attr (name : List Char) (val : Option (List Char))
   | close
+  | pi (target : List Char)
   deriving DecidableEq, Repr
 
 structure InEv where
@@ -206,8 +207,9 @@ inductive Mode
   | pi (name : List Char)     -- inside a processing instruction (which may stand inside the start tag of `name`)
   deriving DecidableEq, Repr
 
-/-- The element events of the input the property speaks about.  Removable subtrees, processing instructions,
-comments, DOCTYPE and character data produce no event; a removable attribute produces an *optional* event. -/
+/-- The element events of the input the property speaks about.  Removable subtrees, comments, DOCTYPE and
+character data produce no event; a processing instruction gives one event (optional for the XML declaration), its data
+none; a removable attribute produces an *optional* event. -/
 def essIn (inl : Bool) : Mode → List STok → List InEv
   | _, [] => []
   | .skip d, t :: r =>
@@ -224,25 +226,29 @@ def essIn (inl : Bool) : Mode → List STok → List InEv
     match t with
     | .startTag n =>
       if removableElem n then essIn inl (.skip 0) r else ⟨.open (localName n), false⟩ :: essIn inl (.elem n) r
-    | .startTagPI _ => essIn inl (.pi e) r
+    | .startTagPI n => ⟨.pi n, n == ['x', 'm', 'l']⟩ :: essIn inl (.pi e) r
     | .attr _ n v => ⟨.attr n v, foreignAttr n || defaultable inl e n⟩ :: essIn inl (.elem e) r
     | .startTagCloseVoid => ⟨.close, false⟩ :: essIn inl (.elem []) r
     | .endTag _ _ => ⟨.close, false⟩ :: essIn inl (.elem []) r
     | _ => essIn inl (.elem e) r
 
-/-- all element events of the output -/
-def evsOut : List STok → List Ev
-  | [] => []
-  | .startTag n :: r => .open n :: evsOut r
-  | .attr _ n v :: r => .attr n v :: evsOut r
-  | .startTagCloseVoid :: r => .close :: evsOut r
-  | .endTag _ _ :: r => .close :: evsOut r
-  | _ :: r => evsOut r
+/-- all element and processing-instruction events of the output (argument: inside a processing instruction) -/
+def evsOut : Bool → List STok → List Ev
+  | _, [] => []
+  | true, .startTagClosePI :: r => evsOut false r
+  | true, _ :: r => evsOut true r
+  | false, .startTagPI n :: r => .pi n :: evsOut true r
+  | false, .startTag n :: r => .open n :: evsOut false r
+  | false, .attr _ n v :: r => .attr n v :: evsOut false r
+  | false, .startTagCloseVoid :: r => .close :: evsOut false r
+  | false, .endTag _ _ :: r => .close :: evsOut false r
+  | false, _ :: r => evsOut false r
 
 /-- one expected event against one output event (`R` relates attribute values) -/
 def matchEv (R : List Char → Option (List Char) → Option (List Char) → Bool) : Ev → Ev → Bool
   | .open a, .open b => a == b
   | .close, .close => true
+  | .pi a, .pi b => a == b
   | .attr n v, .attr m w => n == m && R n v w
   | _, _ => false
 
@@ -256,11 +262,11 @@ def structRel (R : List Char → Option (List Char) → Option (List Char) → B
 
 /-- **the structural clause** for input tokens `i` and output tokens `o` -/
 def structEquiv (inl : Bool) (i o : List STok) : Bool :=
-  structRel valRel (essIn inl (.elem []) i) (evsOut o)
+  structRel valRel (essIn inl (.elem []) i) (evsOut false o)
 
 /-- the same without looking at attribute values (element tree and attribute names) -/
 def skeletonEquiv (inl : Bool) (i o : List STok) : Bool :=
-  structRel (fun _ _ _ => true) (essIn inl (.elem []) i) (evsOut o)
+  structRel (fun _ _ _ => true) (essIn inl (.elem []) i) (evsOut false o)
 
 /-! ## hypotheses of the theorems -/
 
